@@ -106,6 +106,7 @@ package manager
 //@   trusted
 //@   ensures forall(k, 0, len(result), isref(t, result[k]))
 //@   ensures forall(string, r, 0, inf, implies(isref(t, r), exists(k, 0, len(result), result[k] == r)))
+//@   ensures forall(i, 0, len(result), forall(j, 0, len(result), implies(i != j, result[i] != result[j])))
 //@ func (*Manager).event
 //@   prop C11
 //@   trusted
@@ -174,3 +175,70 @@ package manager
 //@   ensures deleted_wf: implies(old(haskey(mgr.tags, name)) && !haskey(mgr.tags, name), wfE(mgr.tags) && mirror(mgr.tags))
 //@   ensures others: forall(string, n, 0, inf, implies(n != name, haskey(mgr.tags, n) == old(haskey(mgr.tags, n)) && mgr.tags[n] == old(mgr.tags[n])))
 //@   ensures unknown: implies(!old(haskey(mgr.tags, name)), !isnil(result) && !haskey(mgr.tags, name))
+
+// UpdateTag, new definition: from the look-up of the tag to the point where the new tag object is
+// installed (before the uncertainty walk). The references of the new definition exist (checked first),
+// the referencedBy sets are moved from "named by the old definition" to "named by the new one", and
+// the graph is well-formed again with the new object in place.
+//@ func (*Manager).tagReferencesTransitively
+//@   prop C11
+//@   trusted
+//@ func (*Manager).UpdateTag$1$1@region:query
+//@   prop C11
+//@   heap newTag
+//@   stop before call (*Manager).inheritTagUncertainty#1
+//@   requires mgr != nil && mgr.tags != nil && mgr.updatedTagsToSignal != nil && newTag != nil
+//@   requires wfE(mgr.tags) && mirror(mgr.tags)
+//@   requires forall(string, n, 0, inf, implies(haskey(mgr.tags, n), mgr.tags[n] != newTag))
+//@   requires !isrefp(newTag, name)
+//@   noframe
+//@   loop 1 invariant refs_exist: 0 <= rangeindex+1 && forall(k, 0, rangeindex+1, haskey(mgr.tags, rangeseq[k]))
+//@   loop 2 invariant ob_ok: onlyBefore != nil && onlyAfter != nil && len(onlyAfter) == 0
+//@   loop 2 invariant ob_sound: forall(string, s, 0, inf, implies(haskey(onlyBefore, s), isrefp(old(mgr.tags[name]), s)))
+//@   loop 2 invariant ob_done: 0 <= rangeindex+1 && forall(k, 0, rangeindex+1, haskey(onlyBefore, rangeseq[k]))
+//@   loop 3 invariant maps_ok: onlyBefore != nil && onlyAfter != nil
+//@   loop 3 invariant ob_sound: forall(string, s, 0, inf, implies(haskey(onlyBefore, s), isrefp(old(mgr.tags[name]), s)))
+//@   loop 3 invariant ob_rest: forall(string, s, 0, inf, implies(isrefp(old(mgr.tags[name]), s) && !isrefp(newTag, s), haskey(onlyBefore, s)))
+//@   loop 3 invariant ob_todo: 0 <= rangeindex+1 && forall(k, rangeindex+1, len(rangeseq), implies(isrefp(old(mgr.tags[name]), rangeseq[k]), haskey(onlyBefore, rangeseq[k])))
+//@   loop 3 invariant ob_removed: forall(k, 0, rangeindex+1, !haskey(onlyBefore, rangeseq[k]))
+//@   loop 3 invariant oa_sound: forall(string, s, 0, inf, implies(haskey(onlyAfter, s), isrefp(newTag, s) && !isrefp(old(mgr.tags[name]), s)))
+//@   loop 3 invariant oa_done: forall(k, 0, rangeindex+1, implies(!isrefp(old(mgr.tags[name]), rangeseq[k]), haskey(onlyAfter, rangeseq[k])))
+//@   loop 4 invariant new_refby: newTag.referencedBy != nil && forall(string, n, 0, inf, haskey(newTag.referencedBy, n) == old(haskey(mgr.tags[name].referencedBy, n)))
+//@   loop 4 invariant maps_ok: mgr.updatedTagsToSignal != nil && forall(string, n, 0, inf, implies(haskey(mgr.tags, n), mgr.tags[n].referencedBy != nil))
+//@   loop 4 invariant removed: forall(string, s, 0, inf, implies(haskey(rangevisited, s), !haskey(mgr.tags[s].referencedBy, name)))
+//@   loop 4 invariant others_kept: forall(string, r, 0, inf, implies(haskey(mgr.tags, r), \
+//@       forall(string, n, 0, inf, implies(n != name, haskey(mgr.tags[r].referencedBy, n) == (haskey(mgr.tags, n) && isrefp(mgr.tags[n], r))))))
+//@   loop 4 invariant only_old: forall(string, r, 0, inf, implies(haskey(mgr.tags, r) && haskey(mgr.tags[r].referencedBy, name), isrefp(old(mgr.tags[name]), r)))
+//@   loop 4 invariant kept: forall(string, r, 0, inf, implies(haskey(mgr.tags, r) && isrefp(old(mgr.tags[name]), r) && !haskey(onlyBefore, r), haskey(mgr.tags[r].referencedBy, name)))
+//@   loop 5 invariant new_refby: newTag.referencedBy != nil && forall(string, n, 0, inf, haskey(newTag.referencedBy, n) == old(haskey(mgr.tags[name].referencedBy, n)))
+//@   loop 5 invariant maps_ok: mgr.updatedTagsToSignal != nil && forall(string, n, 0, inf, implies(haskey(mgr.tags, n), mgr.tags[n].referencedBy != nil))
+//@   loop 5 invariant added: forall(string, s, 0, inf, implies(haskey(rangevisited, s), haskey(mgr.tags[s].referencedBy, name)))
+//@   loop 5 invariant others_kept: forall(string, r, 0, inf, implies(haskey(mgr.tags, r), \
+//@       forall(string, n, 0, inf, implies(n != name, haskey(mgr.tags[r].referencedBy, n) == (haskey(mgr.tags, n) && isrefp(mgr.tags[n], r))))))
+//@   loop 5 invariant kept: forall(string, r, 0, inf, implies(haskey(mgr.tags, r) && isrefp(old(mgr.tags[name]), r) && !haskey(onlyBefore, r), haskey(mgr.tags[r].referencedBy, name)))
+//@   loop 5 invariant sound: forall(string, r, 0, inf, implies(haskey(mgr.tags, r) && haskey(mgr.tags[r].referencedBy, name), \
+//@       (isrefp(old(mgr.tags[name]), r) && !haskey(onlyBefore, r)) || haskey(onlyAfter, r)))
+//@   ensures wf: wfE(mgr.tags)
+//@   ensures mirrored: mirror(mgr.tags)
+
+// UpdateTag, rename: from the name checks to the first event. A referenced tag is not renamed; the
+// tags named by the definition record the new name instead of the old one.
+//@ func (*Manager).UpdateTag$1$1@region:rename
+//@   prop C11
+//@   start before call parseTagName#1
+//@   stop before call (*Manager).event#1
+//@   noframe
+//@   requires mgr != nil && mgr.tags != nil && tag != nil && haskey(mgr.tags, name) && mgr.tags[name] == tag
+//@   requires wfE(mgr.tags) && mirror(mgr.tags)
+//@   loop 12 invariant inj: forall(string, a, 0, inf, forall(string, b, 0, inf, implies(haskey(mgr.tags, a) && haskey(mgr.tags, b) && a != b, mgr.tags[a] != mgr.tags[b])))
+//@   loop 12 invariant maps_ok: forall(string, n, 0, inf, implies(haskey(mgr.tags, n), mgr.tags[n].referencedBy != nil))
+//@   loop 12 invariant own_empty: forall(string, n, 0, inf, !haskey(tag.referencedBy, n))
+//@   loop 12 invariant ren_done: 0 <= rangeindex+1 && forall(k, 0, rangeindex+1, !haskey(mgr.tags[rangeseq[k]].referencedBy, name) && haskey(mgr.tags[rangeseq[k]].referencedBy, info.name))
+//@   loop 12 invariant ren_others: forall(string, r, 0, inf, implies(haskey(mgr.tags, r), \
+//@       forall(string, n, 0, inf, implies(n != name && n != info.name, haskey(mgr.tags[r].referencedBy, n) == (haskey(mgr.tags, n) && isrefp(mgr.tags[n], r))))))
+//@   loop 12 invariant ren_old_sound: forall(string, r, 0, inf, implies(haskey(mgr.tags, r) && haskey(mgr.tags[r].referencedBy, name), isrefp(tag, r)))
+//@   loop 12 invariant ren_new_sound: forall(string, r, 0, inf, implies(haskey(mgr.tags, r) && haskey(mgr.tags[r].referencedBy, info.name), isrefp(tag, r)))
+//@   ensures renamed_wf: wfE(mgr.tags)
+//@   ensures renamed_mirror: mirror(mgr.tags)
+//@   ensures renamed: implies(!haskey(mgr.tags, name), haskey(mgr.tags, info.name) && mgr.tags[info.name] == tag)
+//@   assume after call slices.AppendSeq[[]string, string]#1: len(result) >= 1
